@@ -390,8 +390,7 @@ fn replay_lines(lines: &[Value], u: &Universe) -> (Agg, Stats) {
         if got != pre {
             // the step that went wrong was reported from the fan of the parent state; do not cascade
             st.diverged_paths += 1;
-            let last = path.last().map(|&i| u.descr[i]["k"].as_str().unwrap_or("?").to_string()).unwrap_or_else(|| "init".into());
-            agg.add(&format!("{last}/path/state-differs"), json!({"path": path.iter().map(|&i| u.descr[i].clone()).collect::<Vec<_>>(), "expected": pre, "observed": got}));
+            agg.add("path/diverged", json!({"path": path.iter().map(|&i| u.descr[i].clone()).collect::<Vec<_>>(), "expected": pre, "observed": got}));
             continue;
         }
         let fp_pre = fingerprint(&cur);
@@ -507,7 +506,7 @@ pub fn record(o: &Opts) -> Res<()> {
     let mut rng = o.rng(35);
     let w = World::new();
     let mut ex = Exec::new();
-    let segments = if o.thorough() { 400 } else { 60 };
+    let segments = if o.thorough() { 1200 } else { 60 };
     let max_sub = w.chain.tx_params().max_bytecode_subsections();
     for seg in 0..segments {
         // ---- the universe of this segment ----
@@ -652,7 +651,12 @@ pub fn record(o: &Opts) -> Res<()> {
                     built = Some(w.upgrade_cp(&cp));
                 }
                 79..=88 => {
-                    let root = if roots.is_empty() || rng.gen_range(0..8) == 0 { Bytes32::from(rng.gen::<[u8; 32]>()) } else { roots.choose(&mut rng).unwrap().root };
+                    // usually a declared root (half of the time one that is completely uploaded, if any), sometimes an unknown one
+                    let complete: Vec<Bytes32> = st.clone().state_transition_bytecodes_mut().iter()
+                        .filter(|(_, e)| matches!(e, UploadedBytecode::Completed(_))).map(|(r, _)| *r).collect();
+                    let root = if roots.is_empty() || rng.gen_range(0..8) == 0 { Bytes32::from(rng.gen::<[u8; 32]>()) }
+                               else if !complete.is_empty() && rng.gen_bool(0.5) { *complete.choose(&mut rng).unwrap() }
+                               else { roots.choose(&mut rng).unwrap().root };
                     ev.insert("k".into(), json!("UpgradeStateTransition"));
                     ev.insert("root".into(), json!(hx(root)));
                     built = Some(w.upgrade_st(root));
